@@ -3,3 +3,5 @@ From TT Require Import Model.Doc Gen.StyleTables Model.Isd Model.IsdCases Spec.I
 
 Definition cases_clause (i : nat) (units_except : list Z) (skip_rp : bool) (qs : list (Q * option (list elem))) : list bool :=
   map (fun q => match snd q with Some rs => nth i (shape_clauses units_except skip_rp rs) false | None => true end) qs.
+(* the hypotheses of the C13 theorems, evaluated on every generated source document *)
+Definition cases_wf (d : doc) : list bool := [doc_content_wf d; doc_values_wf d].
